@@ -4,12 +4,30 @@
    of csr/action.py against Model/Actions.v.
 
    Every generated constructor is a function of a `world` W (Lib/PyVal.v): the semantics of the classes that are
-   NOT translated.  Part 1 below writes those semantics down - each a transcription of the few checks the foreign
-   constructor / setter makes, with its source location - and Parts 2-5 instantiate W with them, run the generated
-   constructor and compare (a) its result / exception with the model's constructor function for ALL arguments and
-   (b) what the recorded trace of foreign calls says was built (the published geometry) with the model's record.
-   The statements look the trace up by WHAT was called (`call_of`, `calls_of`, `last_set`), never by position, so
-   that reordering independent statements of the source does not break them. *)
+   NOT translated.  Part 1 and the head of Parts 2-5 write those semantics down - each a transcription of the few
+   checks the foreign constructor / setter makes, with its source location (this is the trusted reading of the
+   foreign classes; the correspondence engines test the same behaviour on the real objects) - and each Part
+   instantiates W with them, runs the generated constructor and compares
+     (a) its result / exception with the model's constructor function for ALL argument values (same refusal, same
+         exception class, same order of checks: the first failing one decides), and
+     (b) what the recorded trace of foreign calls says was built (the published geometry, the memory map, the
+         registers, the members) with the model's record.
+   The statements look the trace up by WHAT was called (`call_of`, `calls_on`, `last_set`, `port_signature`), never
+   by position, so that reordering independent statements of the source does not break them.
+
+   Where the model does not cover something the code does, the statement says so instead of weakening silently:
+   - Model/WbCsrBridge.v assumes its argument is a csr.Interface: tie_wbcsr_ctor is stated for such an object
+     (flipped or not) and tie_wbcsr_not_interface covers every other object (TypeError before anything else);
+   - Model/Actions.v has no constructor function: tie_action_ctor states what each class builds in terms of the
+     model's `kind`, `has_storage` and `init_state`; the refusals (tie_action_range_rule, tie_action_bad_init,
+     tie_action_bad_shape) are statements about the code and the specified FieldAction / Signal only;
+   - Model/Sram.v omits the wishbone.Interface.memory_map setter's checks and add_resource's bound: the world
+     makes them, and tie_sram_ctor shows they never fire.
+
+   Proof method: `norm` (one `lazy` call with an explicit unfolding list) evaluates the generated constructor on
+   arguments of known constructor shape down to its decision tree over comparisons of the symbolic integers
+   (`Branch`, Lib/PyVal.v); the tree and the model's if-then-else are then split atom by atom.  Nothing depends on
+   the names of generated variables. *)
 From Coq Require Import String ZArith List Bool Lia ZifyBool.
 From Soc Require Import Lib.Bits Lib.Res Lib.PyVal.
 From Soc Require Model.Sram Proofs.Sram Model.WbCsrBridge Model.Actions Model.Mux Model.Gpio.
